@@ -7,6 +7,16 @@ VERIF = os.path.dirname(os.path.dirname(os.path.abspath(__file__)))
 
 # id -> (level, technique, level text, level note, design ref)
 CLAIMED = {
+    "C16": ("exploration",
+            "deterministic simulation: seeded + enumerated client transcripts x read splits against a SASL server reference model",
+            "Client transcripts (random walks and, in the thorough tier, every sequence of <= 3 lines over a 22-symbol alphabet) x credentials x mechanism x read splits run against the real server handshake; replies and the authentication outcome are compared in lock-step with a reference server written from the spec's state table. Sampling plus bounded enumeration; no proof.",
+            "Where the spec and the property text differ or are silent the model accepts each documented alternative (listed in the scenario's assumptions).",
+            "DESIGN.md §3 C16"),
+    "C17": ("exploration",
+            "deterministic simulation: seeded + enumerated server reply sequences x read splits against a reference client",
+            "Server reply sequences (random and, thorough, every sequence of <= 2 lines over an 18-symbol alphabet) x expected GUID none/equal/different x fd capability x FLATPAK_ID x trailing messages with fds x read splits against the real client handshake; success, reported GUID, fd capability and the fate of trailing bytes are compared with a reference client.",
+            "Expected-GUID cases go through the zbus_verif client_handshake hook (the public API accepts an expected GUID only inside an address).",
+            "DESIGN.md §3 C17"),
     "C14": ("exploration",
             "deterministic simulation: seeded read-split/latency/schedule search over a simulated socket, independent frame oracle",
             "Seeded search over message sequences x read splits (incl. enumerated cut points) x handshake leftovers x fd placement x schedules; every yielded message is compared byte-for-byte (and fd-for-fd) with what an independent marshaller sent. Sampling, not proof: a clean batch is evidence.",
